@@ -167,6 +167,24 @@ def check(run):
             run.check(len(rs) == 1 and [norm(a) for a in rs[0].args] == shp, 'R12.size', m, q, 'the weight groups the (x,z) pair of each qubit: reshape(%s)' % ', '.join(shp))
         ps_ = repo.func(prel, 'paulis')
         bind.check_function_calls(run, repo, ps_, only={'PauliList'})
+        comps = [n for n in ast.walk(ps_.node) if isinstance(n, (ast.ListComp, ast.GeneratorExp)) and isinstance(n.elt, (ast.Attribute, ast.Call))]
+        got = {}
+        for cmp_ in comps:
+            e = cmp_.elt
+            while isinstance(e, ast.Call) and e.args:
+                e = e.args[0]
+            if isinstance(e, ast.Attribute) and norm(e.value) == norm(cmp_.generators[0].target) and norm(cmp_.generators[0].iter) == 'objs':
+                got[e.attr] = True
+        run.check(got.get('g') and got.get('p'), 'R12.defaults', ps_, 'gs from obj.g, ps from obj.p', 'the list collects string and phase of every parsed operator (found %s)' % sorted(got))
+        # constructor defaults: phase 0 when omitted
+        for q, fld, zero in (('Pauli.__init__', 'p', '0'), ('PauliList.__init__', 'ps', 'zeros')):
+            ini = repo.func(prel, q)
+            sts = [st for st, _ in walk(ini.node) if isinstance(st, ast.Assign) and norm(st.targets[0]) == 'self.' + fld]
+            ok = len(sts) == 1 and isinstance(sts[0].value, ast.IfExp) and norm(sts[0].value.test).replace(' ', '') == '%sisNone' % fld \
+                and norm(sts[0].value.orelse) == fld and zero in norm(sts[0].value.body)
+            run.check(ok, 'R12.defaults', ini, sts[0] if sts else 'self.' + fld, 'an omitted phase means +1 (phase indicator 0); a given one is stored as is')
+            gsts = [st for st, _ in walk(ini.node) if isinstance(st, ast.Assign) and norm(st.targets[0]) in ('self.g', 'self.gs')]
+            run.check(len(gsts) == 1 and norm(gsts[0].value) in ('g', 'gs'), 'R12.defaults', ini, gsts[0] if gsts else 'self.g', 'the string is stored as given')
     a, b = per_pkg['pyclifford'], per_pkg['torchclifford']
     for i, what in enumerate(('phase prefixes', 'letters', 'letter tokens', 'phase tokens', 'reader table')):
         run.check(a[i] == b[i], 'R12.port', (K.TC_P, 'paulialg'), what, '%s differ between pyclifford and torchclifford: %r vs %r' % (what, a[i], b[i]))
@@ -185,6 +203,7 @@ def check(run):
     run.floor('R13.getitem', 8)
     run.floor('R12.alloc', 10)
     run.floor('R12.port', 5)
+    run.floor('R12.defaults', 10)
     run.decide('reader(writer(x)) = x on letters, prefixes, letter tokens and phase tokens; letters equal the Pauli matrices; '
                'c = i^k for scalar multiples and negation; parallel indexing; size/weight layout; allocation / trim arithmetic; py = tc')
     run.decline('numpy / torch indexing semantics themselves (slices, masks, index arrays)')
